@@ -3,14 +3,22 @@ package checks
 import (
 	"encoding/json"
 	"fmt"
+	"os"
+	"os/exec"
+	"path/filepath"
 	"strings"
+	"syscall"
 
 	"verif/evid"
 	"verif/fsmodel"
 	"verif/par"
+	"verif/scratch"
 )
 
-func init() { register("C01", runC01, replayC01) }
+func init() {
+	register("C01", runC01, replayC01)
+	Children["c01u"] = childC01u
+}
 
 // judgeC01 runs one case and returns (violation key, message) or "".
 func judgeC01(c SyncCase) (string, string, *SyncObs) {
@@ -238,12 +246,133 @@ func runC01(r *evid.Run) {
 		r.Violate(key, fmt.Sprintf("%s: %s", c.String(), msg), c)
 	})
 	r.Set("failed_transfers", fails)
+	runUnpriv(r)
+}
+
+// ---- unprivileged receiver: the same judge, run in a child process with uid/gid 1000 ----
+
+// unprivCases: shapes over the small universe where every entry belongs to uid 1000 and regular
+// files are read-only (0444/0400) on either side, so that content has to be written into files the
+// receiver may not open for writing.
+func unprivCases() []SyncCase {
+	mk := func(salt int) []fsmodel.Tree {
+		kinds := fsmodel.StdKinds(salt)
+		ts := fsmodel.Shapes([]string{"a", "a/b", "a-b"}, kinds)
+		for ti := range ts {
+			for i := range ts[ti] {
+				n := &ts[ti][i]
+				n.UID, n.GID = 1000, 1000
+				if n.Kind == fsmodel.File {
+					n.Perm = 0444
+					if len(n.Data) > 5 {
+						n.Perm = 0400
+					}
+					n.Data = append(n.Data, fsmodel.Content(salt, 40000)...) // multi-chunk: written by the async writer
+				}
+			}
+		}
+		return ts
+	}
+	srcs, dsts := mk(1), mk(2)
+	var out []SyncCase
+	for _, s := range srcs {
+		for _, d := range dsts {
+			for _, merge := range []bool{false, true} {
+				out = append(out, SyncCase{Src: s, Dst: d, Merge: merge, Unpriv: true}, SyncCase{Src: s, Dst: d, Merge: merge, Mem: true, Unpriv: true})
+			}
+		}
+		out = append(out, SyncCase{Src: s, Dst: s, Unpriv: true}) // nothing to do
+	}
+	return out
+}
+
+type c01uOut struct {
+	Evals int64
+	Key   string
+	Msg   string
+	Case  *SyncCase
+}
+
+func childC01u(args []string) int {
+	if os.Getuid() == 0 {
+		fmt.Fprintln(os.Stderr, "c01u: must not run as root")
+		return 3
+	}
+	os.Setenv("VERIF_SCRATCH", args[0])
+	enc := json.NewEncoder(os.Stdout)
+	n := int64(0)
+	cases := unprivCases()
+	if len(args) > 1 {
+		var c SyncCase
+		if err := json.Unmarshal([]byte(args[1]), &c); err != nil {
+			return 3
+		}
+		cases = []SyncCase{c}
+	}
+	for _, c := range cases {
+		c := c
+		key, msg, _ := judgeC01(c)
+		n++
+		if key != "" {
+			enc.Encode(c01uOut{Key: key, Msg: msg, Case: &c})
+		}
+	}
+	enc.Encode(c01uOut{Evals: n})
+	return 0
+}
+
+func runUnpriv(r *evid.Run) { runUnprivCases(r, "") }
+
+func runUnprivCases(r *evid.Run, single string) {
+	dir := scratch.Dir("unpriv")
+	defer scratch.Remove(dir)
+	// the child needs to reach its scratch directory
+	for d := dir; d != "/" && d != "."; d = filepath.Dir(d) {
+		os.Chmod(d, 0755)
+	}
+	os.Chown(dir, 1000, 1000)
+	self, _ := os.Executable()
+	cmd := exec.Command(self, "child", "c01u", dir)
+	if single != "" {
+		cmd = exec.Command(self, "child", "c01u", dir, single)
+	}
+	cmd.SysProcAttr = &syscall.SysProcAttr{Credential: &syscall.Credential{Uid: 1000, Gid: 1000}}
+	cmd.Env = append(os.Environ(), "HOME="+dir, "TMPDIR="+dir)
+	var stderr strings.Builder
+	cmd.Stderr = &stderr
+	b, err := cmd.Output()
+	dec := json.NewDecoder(strings.NewReader(string(b)))
+	total := int64(0)
+	for {
+		var o c01uOut
+		if dec.Decode(&o) != nil {
+			break
+		}
+		total += o.Evals
+		if o.Key != "" {
+			r.Violate("unprivileged:"+o.Key, "receiver running as uid 1000: "+o.Case.String()+": "+o.Msg, o.Case)
+		}
+	}
+	if err != nil {
+		r.Violate("infra", "unprivileged child: "+err.Error()+": "+firstLine(stderr.String()), nil)
+		r.Exhaustive = false
+	}
+	r.Evaluations.Add(total)
+	r.Add("unprivileged_receiver_cases", total)
 }
 
 func replayC01(raw json.RawMessage) string {
 	var c SyncCase
 	if err := json.Unmarshal(raw, &c); err != nil {
 		return "bad case: " + err.Error()
+	}
+	if c.Unpriv {
+		r := evid.New("C01", "replay")
+		runUnprivCases(r, string(raw))
+		if p := r.Export(); len(p.Viol) > 0 {
+			return p.Viol[0].Key + ": " + p.Viol[0].Msg
+		}
+		return ""
 	}
 	key, msg, _ := judgeC01(c)
 	if key == "" {
